@@ -16,6 +16,8 @@ VERIFICATION_FAILURES = [
     (re.compile(r"^decreases not satisfied"), "decreases"),
     (re.compile(r"^unreachable|^possible.*unreachable|reached unreached"), "unreachable"),
     (re.compile(r"^loop invariant not satisfied"), "inv"),
+    (re.compile(r"^unable to prove post-?condition of closure"), "closure-post"),
+    (re.compile(r"^unable to prove pre-?condition of closure|^Call to non-static function fails to satisfy"), "closure-pre"),
     (re.compile(r"^recommendation not met"), None),          # notes only
     (re.compile(r"^possible bit shift underflow/overflow"), "overflow"),
     (re.compile(r"^cannot show invariant holds"), "inv"),
